@@ -242,6 +242,60 @@ class Ctx:
             seen_here.add(sig)
             self._file(clause, cases[idx], sig, msg)
 
+    def run_parallel(self, clause: str, cases: list[dict], workers: int = 8, group_key=None, threads: int = 2):
+        """Run a clause over cases in worker processes (spawned, each importing the property module
+        afresh); failures come back as (index, signature, message) and are confirmed and filed here
+        in the parent by re-executing the single case.  Cases with equal group_key stay together."""
+        import concurrent.futures as cf
+        import multiprocessing as mp
+
+        if not cases:
+            return
+        workers = max(1, min(workers, int(os.environ.get("VERIF_WORKERS", workers))))
+        groups: dict = {}
+        for i, c in enumerate(cases):
+            groups.setdefault(group_key(c) if group_key else i, []).append(i)
+        chunks = [[] for _ in range(min(workers * 3, len(groups)))]
+        for gi, (_, idxs) in enumerate(sorted(groups.items(), key=lambda kv: -len(kv[1]))):
+            min(chunks, key=len).extend(idxs)
+        chunks = [c for c in chunks if c]
+        if workers == 1 or len(chunks) == 1:
+            return self.run(clause, cases)
+        self.per_clause[clause] = self.per_clause.get(clause, 0) + len(cases)
+        if len(self.samples) < 6:
+            self.sample({"clause": clause, "case": cases[0]})
+        all_fails = []
+        with cf.ProcessPoolExecutor(workers, mp_context=mp.get_context("spawn"), initializer=_winit, initargs=(threads,)) as ex:
+            futs = {ex.submit(_wrun, self.pid, self.tier, self.seed, clause, [cases[i] for i in ch]): ch for ch in chunks}
+            for fut in cf.as_completed(futs):
+                ch = futs[fut]
+                res = fut.result()
+                if res.get("error"):
+                    # re-run this chunk in-process so that the normal crash isolation applies
+                    self.per_clause[clause] -= len(ch)
+                    self.run(clause, [cases[i] for i in ch])
+                    continue
+                self.tick(len(ch))
+                self.states += res["states"]
+                self.transitions += res["transitions"]
+                self.traces += res["traces"]
+                for g, n in res["guards"].items():
+                    self.guard(g, n)
+                for cat, vals in res["outcomes"].items():
+                    for v in vals:
+                        self.outcome(cat, tuple(v) if isinstance(v, list) else v)
+                all_fails += [(ch[i], sig, msg) for (i, sig, msg) in res["fails"]]
+        seen_here = set()
+        for idx, sig, msg in sorted(all_fails):
+            if sig in self.violations or sig in self.known_hits or sig in seen_here:
+                if sig in self.violations:
+                    self.violations[sig]["count"] += 1
+                elif sig in self.known_hits:
+                    self.known_hits[sig]["count"] += 1
+                continue
+            seen_here.add(sig)
+            self._file(clause, cases[idx], sig, msg)
+
     def _confirm(self, clause, case, sig) -> tuple[bool, str]:
         fn = self.clauses[clause]
         try:
@@ -353,6 +407,35 @@ class Ctx:
         return 0
 
 
+def _winit(threads):
+    import threading
+
+    parent = os.getppid()
+
+    def watchdog():  # never outlive the parent (a killed check must not leave workers behind)
+        while True:
+            time.sleep(2.0)
+            if os.getppid() != parent:
+                os._exit(1)
+
+    threading.Thread(target=watchdog, daemon=True).start()
+    setup_runtime(threads=threads)
+
+
+def _wrun(pid, tier, seed, clause, cases):
+    try:
+        mod = importlib.import_module(f"mc.props.{pid.lower()}")
+        ctx = Ctx(pid, tier, seed, mod.LEVEL, mod.CLAUSES)
+        ctx.no_evidence = True
+        fails = list(mod.CLAUSES[clause](cases, ctx))
+        return dict(
+            fails=[(int(i), s, m) for (i, s, m) in fails], states=ctx.states, transitions=ctx.transitions,
+            traces=ctx.traces, guards=ctx.guards, outcomes={k: [jsonable(v) for v in vs] for k, vs in ctx.outcomes.items()},
+        )
+    except Exception as e:
+        return dict(error=f"{type(e).__name__}: {e}", tb=traceback.format_exc())
+
+
 def key_ints(seed: int, n: int, salt: int = 0) -> list[int]:
     """The finite key alphabet K: integers fed to jax.random.key."""
     return [seed * 1000 + salt * 100 + i for i in range(n)]
@@ -370,6 +453,10 @@ def main(argv=None) -> int:
     args = ap.parse_args(argv)
     pid = args.prop.upper()
     tier = args.tier if args.tier in ("quick", "thorough") else "quick"
+    if os.environ.get("VERIF_DUMP_AFTER"):
+        import faulthandler
+
+        faulthandler.dump_traceback_later(int(os.environ["VERIF_DUMP_AFTER"]), exit=True)
     try:
         setup_runtime()
         mod = importlib.import_module(f"mc.props.{pid.lower()}")
